@@ -175,6 +175,22 @@ func (in *instr) collect(s ast.Stmt) []ast.Stmt {
 					markLHS(l)
 				}
 			}
+			// *p overwritten or copied as a whole (only directly on either side of an assignment,
+			// where a StarExpr cannot be a type): an access to every field of the struct
+			for i, side := range [][]ast.Expr{n.Lhs, n.Rhs} {
+				for _, e := range side {
+					for {
+						if p, ok := e.(*ast.ParenExpr); ok {
+							e = p.X
+							continue
+						}
+						break
+					}
+					if st, ok := e.(*ast.StarExpr); ok && pure(st.X) {
+						emit("S", st.X, boolLit(i == 0 && n.Tok != token.DEFINE), pos(st))
+					}
+				}
+			}
 		case *ast.IncDecStmt:
 			markLHS(n.X)
 		case *ast.RangeStmt:
@@ -220,6 +236,7 @@ func (in *instr) collect(s ast.Stmt) []ast.Stmt {
 			if pure(n.X) {
 				emit("M", n.X, boolLit(writes[n]), pos(n))
 			}
+
 		case *ast.KeyValueExpr:
 			// composite literal keys are not selectors; values are walked normally
 		}
